@@ -259,7 +259,7 @@ theorem C15_lab_white :
     (srgbToLab (⟨1, 1, 1⟩ : Vec3 ℝ)).x = 100 ∧
     |(srgbToLab (⟨1, 1, 1⟩ : Vec3 ℝ)).y| ≤ 1 / 10000 ∧
     |(srgbToLab (⟨1, 1, 1⟩ : Vec3 ℝ)).z| ≤ 1 / 10000 := by
-  simp only [srgbToLab, powPos_real, num_ofSci, num_ofNat]
+  simp only [srgbToLab, powPos_real, num_ofSci, num_ofNat, num_select, Num.maxN]
   refine ⟨?_, ?_, ?_⟩
   · norm_num
   · norm_num
